@@ -246,8 +246,10 @@ def validate(traces, dev, workdir, shard=30, jobs=8, profile="debug", target=Non
     return results
 
 
-def run_mc(cfg_text, workdir, tag, workers=8, timeout=3000, module="MC.tla"):
-    """Run a bounded model-checking configuration. Returns dict(states, distinct, ok, violated, out)."""
+def run_mc(cfg_text, workdir, tag, workers=8, timeout=3000, module="MC.tla", budget=None):
+    """Run a bounded model-checking configuration. Returns dict(states, distinct, ok, violated, out).
+    `budget` (seconds): a time budget instead of a hard limit - when it is used up TLC is stopped and what it had
+    explored until then (breadth-first: every behaviour up to the reported depth) counts, marked `complete: False`."""
     stage_spec(workdir)
     cfgp = os.path.join(workdir, f"{tag}.cfg")
     with open(cfgp, "w") as f:
@@ -257,10 +259,28 @@ def run_mc(cfg_text, workdir, tag, workers=8, timeout=3000, module="MC.tla"):
     cmd.insert(cmd.index("-workers"), "-coverage")
     cmd.insert(cmd.index("-workers"), "1")
     t0 = time.time()
-    rc, out = sh(cmd, cwd=workdir, timeout=timeout)
+    complete = True
+    if budget:
+        try:
+            p = subprocess.run(cmd, cwd=workdir, stdout=subprocess.PIPE, stderr=subprocess.STDOUT, timeout=budget, text=True)
+            out = p.stdout
+        except subprocess.TimeoutExpired as ex:
+            out = ex.stdout or ""
+            if isinstance(out, bytes):
+                out = out.decode(errors="replace")
+            complete = False
+    else:
+        rc, out = sh(cmd, cwd=workdir, timeout=timeout)
     shutil.rmtree(md, ignore_errors=True)
-    m = re.search(r"(\d+) states generated, (\d+) distinct states found", out)
-    res = {"wall_s": round(time.time() - t0, 1), "out_tail": out[-1500:]}
+    ms = re.findall(r"(\d[\d,]*) states generated[^\n]*?, (\d[\d,]*) distinct states found", out)
+    m = None
+    res = {"wall_s": round(time.time() - t0, 1), "out_tail": out[-1500:], "complete": complete}
+    if ms:
+        res["transitions"] = int(ms[-1][0].replace(",", ""))
+        res["states"] = int(ms[-1][1].replace(",", ""))
+    dm = re.findall(r"Progress\((\d+)\)", out)
+    if dm:
+        res["depth_reached"] = int(dm[-1])
     cov = {}
     for mm in re.finditer(r"<A_(\w+) line [^>]*>: (\d+):(\d+)", out):
         cov[mm.group(1)] = int(mm.group(3))       # the last report wins (final statistics)
@@ -270,7 +290,7 @@ def run_mc(cfg_text, workdir, tag, workers=8, timeout=3000, module="MC.tla"):
         res["states"] = int(m.group(2))
     v = re.search(r"Invariant (\w+) is violated", out)
     res["violated"] = v.group(1) if v else None
-    res["ok"] = ("No error has been found" in out)
+    res["ok"] = ("No error has been found" in out) or (not complete and not v and "Error:" not in out)
     if not res["ok"] and not v:
         m2 = re.search(r"(Error: .*?)(?:Error: The behavior|The coverage statistics|$)", out, re.S)
         raise ToolError("TLC model checking failed:\n" + (m2.group(1)[:2000] if m2 else out[-2000:]))
